@@ -114,13 +114,13 @@ Record call := {
 }.
 
 (* <kind>_with_tags followed by the builder calls: an error builder ignores them *)
-Definition build (cfg : config) (c : call) : option (errkind + formatter) :=
+Definition build (cfg : config) (c : call) : option (merror + formatter) :=
   match to_value (k_kind c) (k_arg c) with
   | None => None
   | Some (inl e) => Some (inl e)
   | Some (inr v) =>
     match mv_count v with
-    | O => Some (inl InvalidInput)         (* MetricBuilder::from_fmt: empty packed value *)
+    | O => Some (inl EInvalid)             (* MetricBuilder::from_fmt: empty packed value *)
     | _ =>
       Some (inr (fold_left apply_bop (k_ops c)
         {| f_prefix := formatted_prefix (c_prefix cfg); f_key := k_key c; f_val := v; f_kind := k_kind c;
@@ -130,7 +130,7 @@ Definition build (cfg : config) (c : call) : option (errkind + formatter) :=
   end.
 
 (* the text handed to the sink, or the error the call reports *)
-Definition client_line (cfg : config) (c : call) : option (errkind + str) :=
+Definition client_line (cfg : config) (c : call) : option (merror + str) :=
   match build cfg c with
   | None => None
   | Some (inl e) => Some (inl e)
@@ -138,7 +138,7 @@ Definition client_line (cfg : config) (c : call) : option (errkind + str) :=
   end.
 
 (* the faithful model of the pinned tree before the fix of defect D1: no check of the count *)
-Definition client_line_v0 (cfg : config) (c : call) : option (errkind + str) :=
+Definition client_line_v0 (cfg : config) (c : call) : option (merror + str) :=
   match to_value (k_kind c) (k_arg c) with
   | None => None
   | Some (inl e) => Some (inl e)
